@@ -59,6 +59,8 @@ type target struct {
 	Ghosts []string // "(name : Type)"
 	// Abstract: parameters/fields that have no translated representation (dropped from the signature)
 	Abstract []string
+	// ExtraParams: further parameters of the translated function (used by Rewrites)
+	ExtraParams []string
 	// Ignore: statements (as printed) that have no counterpart in the sequential translation:
 	// taking and releasing the object's own mutex
 	Ignore []string
@@ -132,6 +134,45 @@ var targets = []target{
 	}},
 }
 
+var timeExterns = map[string]extern{
+	// time.Time is its nanoseconds since the epoch (unbounded Int). The wall-clock readings of the
+	// ONE zone the search runs in (s.Location, or t's own when that is time.Local) and the calendar
+	// constructors are parameters of the translation; the proofs instantiate them with the calendar
+	// model, the correspondence runs compare them with the real time package.
+	"(time.Time).Year":       {Lean: "(T_Year %r)", Type: "Int", Params: []string{"(T_Year : Int → Int)", "(T_Month : Int → Int)", "(T_Day : Int → Int)", "(T_Hour : Int → Int)", "(T_Minute : Int → Int)", "(T_Second : Int → Int)", "(T_Weekday : Int → Int)", "(T_Date : Int → Int → Int → Int → Int → Int → Int → Int)", "(T_AddDate : Int → Int → Int → Int → Int)", "(T_Truncate : Int → Int → Int)"}},
+	"(time.Time).Month":      {Lean: "(T_Month %r)", Type: "Int"},
+	"(time.Time).Day":        {Lean: "(T_Day %r)", Type: "Int"},
+	"(time.Time).Hour":       {Lean: "(T_Hour %r)", Type: "Int"},
+	"(time.Time).Minute":     {Lean: "(T_Minute %r)", Type: "Int"},
+	"(time.Time).Second":     {Lean: "(T_Second %r)", Type: "Int"},
+	"(time.Time).Weekday":    {Lean: "(T_Weekday %r)", Type: "Int"},
+	"(time.Time).Nanosecond": {Lean: "(%r % 1000000000)", Type: "Int"},
+	"(time.Time).Add":        {Lean: "(%r + %1)", Type: "Int"},
+	"(time.Time).After":      {Lean: "(decide (%r > %1))", Type: "Bool"},
+	"(time.Time).AddDate":    {Lean: "(T_AddDate %r %1 %2 %3)", Type: "Int"},
+	"(time.Time).Truncate":   {Lean: "(T_Truncate %r %1)", Type: "Int"},
+	"(time.Time).Location":   {Lean: "()", Type: "Unit"},
+	"(time.Time).In":         {Lean: "%r", Type: "Int"},
+	"time.Date":              {Lean: "(T_Date %1 %2 %3 %4 %5 %6 %7)", Type: "Int"},
+}
+
+var timeTypes = map[string]string{"time.Time": "Int", "*time.Location": "Unit"}
+
+func init() {
+	targets = append(targets,
+		target{Group: "C04Search", Dir: "cron", Func: "dayStart", Types: timeTypes, Externs: timeExterns},
+		target{Group: "C04Search", Dir: "cron", Func: "dayMatches", Types: timeTypes, Externs: timeExterns},
+		target{Group: "C04Search", Dir: "cron", Func: "SpecSchedule.Next", Types: timeTypes, Externs: timeExterns,
+			ExtraParams: []string{"(s_LocIsLocal : Bool)"},
+			Rewrites: map[string][2]string{
+				"loc == time.Local":        {"s_LocIsLocal", "Bool"},
+				"s.Location != time.Local": {"(!s_LocIsLocal)", "Bool"},
+				// the zero time.Time: January 1, year 1, 00:00:00 UTC
+				"time.Time{}": {"(-62135596800000000000 : Int)", "Int"},
+			}},
+	)
+}
+
 // ---------------------------------------------------------------------------------------------
 
 func fail(f string, a ...any) {
@@ -195,7 +236,13 @@ type fnSig struct {
 	lean     string
 	needFuel bool
 	resultTy lty
-	nparams  int
+	extra    []string   // names of the extern parameters (the caller passes its own of the same names)
+	params   []sigParam // one per Go parameter
+}
+
+type sigParam struct {
+	skip   bool     // abstract parameter: nothing is passed
+	fields []string // struct(-pointer) parameter: the fields that were flattened, in order
 }
 
 func (c *fnCtx) pos(n ast.Node) string { return c.fset.Position(n.Pos()).String() }
@@ -586,17 +633,31 @@ func (c *fnCtx) call(v *ast.CallExpr) exprOut {
 		if sig, ok := c.known[id.Name]; ok {
 			var args []string
 			var p []pre
-			for _, a := range v.Args {
-				// struct-typed argument: flattened fields in declaration order
-				if st, ok := c.info.Types[a].Type.Underlying().(*types.Struct); ok {
+			for _, en := range sig.extra {
+				found := false
+				for _, q := range c.extraParams {
+					if strings.TrimSpace(strings.SplitN(strings.TrimPrefix(q, "("), ":", 2)[0]) == en {
+						found = true
+					}
+				}
+				if !found {
+					c.bad(v, "callee %s needs the extern parameter %s, which this function does not have", id.Name, en)
+				}
+				args = append(args, en)
+			}
+			for i, a := range v.Args {
+				if i < len(sig.params) && sig.params[i].skip {
+					continue
+				}
+				if i < len(sig.params) && sig.params[i].fields != nil {
 					aid, isID := a.(*ast.Ident)
 					if !isID {
 						c.bad(a, "struct argument that is not a variable")
 					}
-					for i := 0; i < st.NumFields(); i++ {
-						fv, ok := c.flat[aid.Name+"."+st.Field(i).Name()]
+					for _, f := range sig.params[i].fields {
+						fv, ok := c.flat[aid.Name+"."+f]
 						if !ok {
-							c.bad(a, "field %s of struct argument is not available", st.Field(i).Name())
+							c.bad(a, "field %s of struct argument %s is not available in the caller", f, aid.Name)
 						}
 						args = append(args, fv.name)
 					}
@@ -625,7 +686,7 @@ func (c *fnCtx) call(v *ast.CallExpr) exprOut {
 	// externs
 	if sel, ok := v.Fun.(*ast.SelectorExpr); ok {
 		key := printed(c.fset, sel)
-		if ex, ok := c.t.Externs[key]; ok {
+		if ex, ok := c.lookupExtern(sel); ok {
 			var args []string
 			var p []pre
 			for _, a := range v.Args {
@@ -657,6 +718,7 @@ type conts struct {
 	brk  func() string // break (nil outside loops)
 	cont func() string // continue
 	ret  func(vals []string) string
+	jump map[string]func() string // goto <label> (labels at function-body level, jumped to from below)
 }
 
 func ind(s string) string { return "  " + strings.ReplaceAll(s, "\n", "\n  ") }
@@ -725,7 +787,7 @@ func (c *fnCtx) assigned(n ast.Node, out map[string]lty) {
 func (c *fnCtx) noteEffects(e ast.Expr, out map[string]lty) {
 	if call, ok := e.(*ast.CallExpr); ok {
 		if sel, ok := call.Fun.(*ast.SelectorExpr); ok {
-			if ex, ok := c.t.Externs[printed(c.fset, sel)]; ok {
+			if ex, ok := c.lookupExtern(sel); ok {
 				for _, ef := range ex.Effects {
 					nm := strings.TrimSpace(strings.SplitN(ef, ":=", 2)[0])
 					for _, g := range c.env {
@@ -797,11 +859,43 @@ func (c *fnCtx) stmts(list []ast.Stmt, k conts) string {
 	if len(list) == 0 {
 		return k.next()
 	}
-	envLen := len(c.env)
+	if ls, ok := list[0].(*ast.LabeledStmt); ok {
+		return c.labelled(ls, list[1:], k)
+	}
 	rest := func() string { return c.stmts(list[1:], k) }
-	out := c.stmt(list[0], conts{next: rest, brk: k.brk, cont: k.cont, ret: k.ret})
-	_ = envLen
-	return out
+	return c.stmt(list[0], conts{next: rest, brk: k.brk, cont: k.cont, ret: k.ret, jump: k.jump})
+}
+
+// labelled translates `L: s; rest…` (the label's region runs to the end of the enclosing block,
+// which must be the function body) into a fuel-indexed definition; `goto L` from inside the
+// region — also from inside its loops — re-enters it with the current values of the variables.
+func (c *fnCtx) labelled(ls *ast.LabeledStmt, rest []ast.Stmt, k conts) string {
+	label := ls.Label.Name
+	c.needFuel = true
+	name := fmt.Sprintf("%s_%s", c.leanName, label)
+	all := append([]variable{}, c.env...)
+	var params, args []string
+	for _, p := range c.extraParams {
+		params = append(params, p)
+		args = append(args, strings.TrimSpace(strings.SplitN(strings.TrimPrefix(p, "("), ":", 2)[0]))
+	}
+	for _, vr := range all {
+		params = append(params, fmt.Sprintf("(%s : %s)", vr.name, vr.ty))
+		args = append(args, vr.name)
+	}
+	enter := func() string { return fmt.Sprintf("%s fuel %s", name, strings.Join(args, " ")) }
+	jump := map[string]func() string{}
+	for l, f := range k.jump {
+		jump[l] = f
+	}
+	jump[label] = enter
+	region := append([]ast.Stmt{ls.Stmt}, rest...)
+	body := c.stmts(region, conts{next: k.next, brk: k.brk, cont: k.cont, ret: k.ret, jump: jump})
+	c.env = append([]variable{}, all...)
+	def := fmt.Sprintf("def %s (fuel : Nat) %s : Kit.GoSem.Res (%s) :=\n  match fuel with\n  | 0 => .nofuel\n  | fuel + 1 =>\n%s\n",
+		name, strings.Join(params, " "), c.resultTy, ind(ind(body)))
+	c.loops = append(c.loops, def)
+	return enter()
 }
 
 func (c *fnCtx) block(b *ast.BlockStmt, k conts) string {
@@ -861,12 +955,26 @@ func (c *fnCtx) effects(ex extern, body string) string {
 func (c *fnCtx) externOf(e ast.Expr) (extern, *ast.CallExpr, bool) {
 	if call, ok := e.(*ast.CallExpr); ok {
 		if sel, ok := call.Fun.(*ast.SelectorExpr); ok {
-			if ex, ok := c.t.Externs[printed(c.fset, sel)]; ok {
+			if ex, ok := c.lookupExtern(sel); ok {
 				return ex, call, true
 			}
 		}
 	}
 	return extern{}, nil, false
+}
+
+// lookupExtern finds the extern for a call `x.M(...)`: by the printed selector, or by the type of
+// the receiver, "(time.Time).M".
+func (c *fnCtx) lookupExtern(sel *ast.SelectorExpr) (extern, bool) {
+	if ex, ok := c.t.Externs[printed(c.fset, sel)]; ok {
+		return ex, true
+	}
+	if tv, ok := c.info.Types[sel.X]; ok && tv.Type != nil {
+		if ex, ok := c.t.Externs["("+tv.Type.String()+")."+sel.Sel.Name]; ok {
+			return ex, true
+		}
+	}
+	return extern{}, false
 }
 
 func (c *fnCtx) externValue(ex extern, call *ast.CallExpr) exprOut {
@@ -975,7 +1083,8 @@ func (c *fnCtx) stmt(s ast.Stmt, k conts) string {
 		}
 		for i, r := range v.Results {
 			// struct literal result: its fields in order
-			if cl, ok := r.(*ast.CompositeLit); ok {
+			_, rewritten := c.t.Rewrites[printed(c.fset, r)]
+			if cl, ok := r.(*ast.CompositeLit); ok && !rewritten {
 				if st, ok := c.info.Types[r].Type.Underlying().(*types.Struct); ok {
 					fv := map[string]exprOut{}
 					for _, el := range cl.Elts {
@@ -1023,6 +1132,13 @@ func (c *fnCtx) stmt(s ast.Stmt, k conts) string {
 		}
 		return c.emitPre(ps, body)
 	case *ast.BranchStmt:
+		if v.Label != nil && v.Tok == token.GOTO {
+			j, ok := k.jump[v.Label.Name]
+			if !ok {
+				c.bad(s, "goto %s: only backward jumps to a label at function-body level are supported", v.Label.Name)
+			}
+			return j()
+		}
 		if v.Label != nil {
 			c.bad(s, "labelled branch")
 		}
@@ -1037,6 +1153,8 @@ func (c *fnCtx) stmt(s ast.Stmt, k conts) string {
 				c.bad(s, "continue outside a loop")
 			}
 			return k.cont()
+		case token.GOTO:
+			c.bad(s, "goto without a label")
 		}
 		c.bad(s, "branch %s", v.Tok)
 	case *ast.IfStmt:
@@ -1224,7 +1342,7 @@ func (c *fnCtx) ifStmt(v *ast.IfStmt, k conts) string {
 	if v.Init != nil {
 		init := v.Init
 		wrapInit = func(body func() string) string {
-			return c.stmt(init, conts{next: body, brk: k.brk, cont: k.cont, ret: k.ret})
+			return c.stmt(init, conts{next: body, brk: k.brk, cont: k.cont, ret: k.ret, jump: k.jump})
 		}
 	}
 	return wrapInit(func() string {
@@ -1255,7 +1373,7 @@ func (c *fnCtx) ifStmt(v *ast.IfStmt, k conts) string {
 			c.env = sv
 			return s
 		})
-		kk := conts{next: callK, brk: k.brk, cont: k.cont, ret: k.ret}
+		kk := conts{next: callK, brk: k.brk, cont: k.cont, ret: k.ret, jump: k.jump}
 		thenS := c.block(v.Body, kk)
 		var elseS string
 		switch e := v.Else.(type) {
@@ -1276,7 +1394,7 @@ func (c *fnCtx) switchStmt(v *ast.SwitchStmt, k conts) string {
 	if v.Init != nil {
 		init := v.Init
 		wrapInit = func(body func() string) string {
-			return c.stmt(init, conts{next: body, brk: k.brk, cont: k.cont, ret: k.ret})
+			return c.stmt(init, conts{next: body, brk: k.brk, cont: k.cont, ret: k.ret, jump: k.jump})
 		}
 	}
 	return wrapInit(func() string {
@@ -1302,7 +1420,7 @@ func (c *fnCtx) switchStmt(v *ast.SwitchStmt, k conts) string {
 			return s
 		})
 		// `break` inside a switch leaves the switch
-		kk := conts{next: callK, brk: callK, cont: k.cont, ret: k.ret}
+		kk := conts{next: callK, brk: callK, cont: k.cont, ret: k.ret, jump: k.jump}
 		var deflt *ast.CaseClause
 		type arm struct {
 			cond string
@@ -1360,7 +1478,7 @@ func (c *fnCtx) forStmt(v *ast.ForStmt, k conts) string {
 	if v.Init != nil {
 		init := v.Init
 		wrapInit = func(body func() string) string {
-			return c.stmt(init, conts{next: body, ret: k.ret})
+			return c.stmt(init, conts{next: body, ret: k.ret, jump: k.jump})
 		}
 	}
 	out := wrapInit(func() string {
@@ -1386,13 +1504,30 @@ func (c *fnCtx) forStmt(v *ast.ForStmt, k conts) string {
 		}
 		recurse := func() string { return fmt.Sprintf("%s fuel %s", loopName, strings.Join(args, " ")) }
 		exit := func() string { return fmt.Sprintf(".ok (.brk %s)", carriedPat) }
+		// `goto L` inside the loop: hand the carried variables back and let the call site jump
+		gotoLabel := ""
+		ast.Inspect(v.Body, func(n ast.Node) bool {
+			if b, ok := n.(*ast.BranchStmt); ok && b.Tok == token.GOTO && b.Label != nil {
+				if gotoLabel != "" && gotoLabel != b.Label.Name {
+					c.bad(b, "gotos to two labels inside one loop")
+				}
+				gotoLabel = b.Label.Name
+			}
+			return true
+		})
+		outTy := "Kit.GoSem.LoopOut"
+		innerJump := map[string]func() string{}
+		if gotoLabel != "" {
+			outTy = "Kit.GoSem.LoopOutJ"
+			innerJump[gotoLabel] = func() string { return fmt.Sprintf(".ok (.jmp %s)", carriedPat) }
+		}
 		post := func() string {
 			if v.Post == nil {
 				return recurse()
 			}
-			return c.stmt(v.Post, conts{next: recurse, ret: k.ret})
+			return c.stmt(v.Post, conts{next: recurse, ret: k.ret, jump: innerJump})
 		}
-		inner := conts{next: post, brk: exit, cont: post, ret: func(vals []string) string { return ".ok (.ret " + c.retTuple(c, vals) + ")" }}
+		inner := conts{next: post, brk: exit, cont: post, ret: func(vals []string) string { return ".ok (.ret " + c.retTuple(c, vals) + ")" }, jump: innerJump}
 		var bodyS string
 		if v.Cond != nil {
 			cond := c.expr(v.Cond)
@@ -1401,12 +1536,20 @@ func (c *fnCtx) forStmt(v *ast.ForStmt, k conts) string {
 			bodyS = c.block(v.Body, inner)
 		}
 		c.env = append([]variable{}, all...)
-		def := fmt.Sprintf("def %s (fuel : Nat) %s : Kit.GoSem.Res (Kit.GoSem.LoopOut (%s) (%s)) :=\n  match fuel with\n  | 0 => .nofuel\n  | fuel + 1 =>\n%s\n",
-			loopName, strings.Join(params, " "), c.resultTy, carriedTy, ind(ind(bodyS)))
+		def := fmt.Sprintf("def %s (fuel : Nat) %s : Kit.GoSem.Res (%s (%s) (%s)) :=\n  match fuel with\n  | 0 => .nofuel\n  | fuel + 1 =>\n%s\n",
+			loopName, strings.Join(params, " "), outTy, c.resultTy, carriedTy, ind(ind(bodyS)))
 		c.loops = append(c.loops, def)
 		after := k.next()
-		return fmt.Sprintf("match %s fuel %s with\n| .panic msg__ => .panic msg__\n| .nofuel => .nofuel\n| .ok (.ret ret__) => .ok ret__\n| .ok (.brk %s) =>\n%s",
-			loopName, strings.Join(args, " "), carriedPat, ind(after))
+		jmpArm := ""
+		if gotoLabel != "" {
+			j, ok := k.jump[gotoLabel]
+			if !ok {
+				c.bad(v, "goto %s out of a loop that is not inside the label's region", gotoLabel)
+			}
+			jmpArm = fmt.Sprintf("| .ok (.jmp %s) =>\n%s\n", carriedPat, ind(j()))
+		}
+		return fmt.Sprintf("match %s fuel %s with\n| .panic msg__ => .panic msg__\n| .nofuel => .nofuel\n| .ok (.ret ret__) => .ok ret__\n%s| .ok (.brk %s) =>\n%s",
+			loopName, strings.Join(args, " "), jmpArm, carriedPat, ind(after))
 	})
 	c.env = c.env[:envLen]
 	return out
@@ -1499,6 +1642,10 @@ func translate(t target, fset *token.FileSet, files []*ast.File, info *types.Inf
 			}
 		}
 	}
+	for _, p := range t.ExtraParams {
+		c.extraParams = append(c.extraParams, p)
+		c.used[strings.TrimSpace(strings.SplitN(strings.TrimPrefix(p, "("), ":", 2)[0])] = 1
+	}
 	for _, g := range t.Ghosts {
 		parts := strings.SplitN(strings.TrimSuffix(strings.TrimPrefix(g, "("), ")"), ":", 2)
 		gv := variable{strings.TrimSpace(parts[0]), lty(strings.TrimSpace(parts[1]))}
@@ -1512,11 +1659,19 @@ func translate(t target, fset *token.FileSet, files []*ast.File, info *types.Inf
 	}
 	plist = append(plist, fd.Type.Params.List...)
 	var flatMut []string
+	var sigParams []sigParam
+	nRecv := 0
+	if fd.Recv != nil {
+		nRecv = len(fd.Recv.List[0].Names)
+	}
 	for _, f := range plist {
 		for _, id := range f.Names {
 			obj := info.Defs[id]
+			sigParams = append(sigParams, sigParam{})
+			sp := &sigParams[len(sigParams)-1]
 			if c.isAbstract(id.Name) {
 				c.names[obj] = id.Name
+				sp.skip = true
 				continue
 			}
 			if _, over := t.Types[obj.Type().String()]; over {
@@ -1526,6 +1681,7 @@ func translate(t target, fset *token.FileSet, files []*ast.File, info *types.Inf
 			}
 			if st := structOf(obj.Type()); st != nil {
 				c.names[obj] = id.Name
+				sp.fields = []string{}
 				for i := 0; i < st.NumFields(); i++ {
 					key := id.Name + "." + st.Field(i).Name()
 					if c.isAbstract(key) || !usesField(fd, id.Name, st.Field(i).Name()) {
@@ -1541,6 +1697,7 @@ func translate(t target, fset *token.FileSet, files []*ast.File, info *types.Inf
 						continue
 					}
 					v := &variable{c.fresh(id.Name + "_" + st.Field(i).Name()), ty}
+					sp.fields = append(sp.fields, st.Field(i).Name())
 					c.flat[key] = v
 					c.flatOrder = append(c.flatOrder, key)
 					params = append(params, *v)
@@ -1673,7 +1830,10 @@ func translate(t target, fset *token.FileSet, files []*ast.File, info *types.Inf
 	src := printed(fset, fd)
 	fmt.Fprintf(&b, "/-- `%s.%s` (%s). Go source:\n```go\n%s\n```\n-/\n", t.Dir, t.Func, filepath.Base(fset.Position(fd.Pos()).Filename), strings.ReplaceAll(src, "-/", "- /"))
 	fmt.Fprintf(&b, "def %s %s : Kit.GoSem.Res (%s) :=\n%s\n", c.leanName, strings.Join(ps, " "), c.resultTy, ind(body))
-	sig := &fnSig{lean: c.leanName, needFuel: c.needFuel, resultTy: c.resultTy}
+	sig := &fnSig{lean: c.leanName, needFuel: c.needFuel, resultTy: c.resultTy, params: sigParams[nRecv:]}
+	for _, p := range c.extraParams {
+		sig.extra = append(sig.extra, strings.TrimSpace(strings.SplitN(strings.TrimPrefix(p, "("), ":", 2)[0]))
+	}
 	if len(outTys) != 1 {
 		sig.resultTy = "" // calls to multi-result functions are not supported as expressions
 	}
